@@ -805,6 +805,10 @@ class TLSRecordLayer(object):
         for result in self._sendMsgs(msgs):
             yield result
 
+        if cert.x509List and p_key:
+            # we have authenticated with this certificate now
+            self.session.clientCertChain = cert
+
     def _handle_srv_pha(self, cert):
         """Process the post-handshake authentication from client."""
         prf_name = 'sha256'
